@@ -123,11 +123,12 @@ static void dump_nodes(const MPT_STRUCT(node) *first)
 		if (n->children) { vh_add("("); dump_nodes(n->children); vh_add(")"); }
 	}
 }
-struct getctx { int found; const uint8_t *base; size_t len; };
+struct getctx { int found; const uint8_t *base; size_t len; const void *val; };
 static int get_handler(void *ptr, MPT_INTERFACE(convertable) *val, const MPT_INTERFACE(collection) *coll)
 {
 	struct getctx *c = (struct getctx *) ptr;
 	(void) coll;
+	c->val = val;
 	c->found = meta_text((MPT_INTERFACE(metatype) *) val, &c->base, &c->len) ? 2 : 1;
 	return 0;
 }
@@ -154,13 +155,25 @@ static void put_str(int r, const char *str)
 	if (!str) { vh_add("Z"); return; }
 	vh_add("V"); venc(str, strlen(str));
 }
+/* the value asked for as itself (TypeConvertablePtr): the object a query handler is given,
+ * read like any other value; W = some other object, Z = success without object */
+static void put_conv(int r, MPT_INTERFACE(convertable) *cv, const void *seen)
+{
+	const uint8_t *b; size_t l;
+	if (r < 0) { put_class(r); return; }
+	if (!cv) { vh_add("Z"); return; }
+	if ((const void *) cv != seen) { vh_add("W"); return; }
+	if (!meta_text((MPT_INTERFACE(metatype) *) cv, &b, &l)) { vh_add("E"); return; }
+	vh_add("V"); venc(b, l);
+}
 /* one observation: the element as a query handler sees it, then what the value
  * accessors mpt_config_getp (type 0, vector of char, 's') and, for '.'-separated
- * strings, mpt_config_get report */
-static void observe_cfg(MPT_INTERFACE(config) *cfg, const struct spec *s)
+ * strings, mpt_config_get report; conv: also the value itself (TypeConvertablePtr)
+ * through both accessors */
+static void observe_cfg(MPT_INTERFACE(config) *cfg, const struct spec *s, int conv)
 {
 	MPT_STRUCT(path) p = MPT_PATH_INIT;
-	struct getctx c = { 0, 0, 0 };
+	struct getctx c = { 0, 0, 0, 0 };
 	struct iovec vec = { 0, 0 };
 	const char *str = 0;
 	int r;
@@ -186,6 +199,20 @@ static void observe_cfg(MPT_INTERFACE(config) *cfg, const struct spec *s)
 		vh_add("/");
 		r = mpt_config_get(cfg, s->str, 's', &str);
 		put_str(r, str);
+	}
+	if (conv) {
+		MPT_INTERFACE(convertable) *cv = 0;
+		vh_add("/");
+		r = mpt_config_getp(cfg, &p, MPT_ENUM(TypeConvertablePtr), &cv);
+		put_conv(r, cv, c.val);
+		/* without a target the answer is the same */
+		if ((mpt_config_getp(cfg, &p, MPT_ENUM(TypeConvertablePtr), 0) < 0) != (r < 0)) vh_add("F:notarget");
+		if (s->sep == '.') {
+			cv = 0;
+			vh_add("/");
+			r = mpt_config_get(cfg, s->str, MPT_ENUM(TypeConvertablePtr), &cv);
+			put_conv(r, cv, c.val);
+		}
 	}
 }
 /* ---- listing through the collection a query handler receives (collectionEach) */
@@ -240,6 +267,7 @@ static int self_handler(void *ptr, MPT_INTERFACE(convertable) *val, const MPT_IN
 static void run_global(int ntok, char **tok)
 {
 	int i = 2, nv, no, k;
+	const int conv = tok[1][1] == 'c';   /* "Gc": the observations also ask for the value itself */
 	struct spec *views, *obs;
 	MPT_INTERFACE(config) **cfg;
 	MPT_INTERFACE(metatype) **mts;
@@ -348,7 +376,7 @@ static void run_global(int ntok, char **tok)
 		vh_add("|%d|", links_ok(nodeGlobal, 0));
 		for (k = 0; k < no; k++) {
 			if (k) vh_add(",");
-			observe_cfg(cfg[obs[k].h], &obs[k]);
+			observe_cfg(cfg[obs[k].h], &obs[k], conv);
 		}
 		vh_add("|");
 		dump_nodes(nodeGlobal);
@@ -523,6 +551,25 @@ static void run_path(int ntok, char **tok)
 				if (n) memcpy(buf, b, n);
 				buf[n] = 0;
 			}
+			r = mpt_path_set(&p, buf, len);
+			show_path(&p, r, 1);
+		}
+		else if (!strcmp(op, "sets")) {
+			/* what mpt::path::set(str, len, sep, assign) does: fields first, then mpt_path_set */
+			const char *s = tok[i++];
+			int len = atoi(tok[i++]);
+			const char *st = tok[i++], *at = tok[i++];
+			char *buf = 0;
+			unsigned c;
+			if (strcmp(s, "~")) {
+				size_t n;
+				uint8_t *b = vh_unhex(s, &n);
+				buf = (char *) malloc(n + 1);
+				if (n) memcpy(buf, b, n);
+				buf[n] = 0;
+			}
+			if (strcmp(st, "~")) { sscanf(st, "%2x", &c); p.sep = (char) c; }
+			if (strcmp(at, "~")) { sscanf(at, "%2x", &c); p.assign = (char) c; }
 			r = mpt_path_set(&p, buf, len);
 			show_path(&p, r, 1);
 		}
